@@ -316,7 +316,7 @@ def _free_scenarios(K6):
         {"name": "tight-flat", "cfg": _hc(K6, MaxCost=3, BufCap=4), "goroutines": 8, "opsPer": 240, "clear": False, "maxCostOps": False,
          "ttls": [], "costs": [1, 1, 1, 1, 2, 2], "costByKey": True, "ample": False, "sleep": False, "phases": 12},
         {"name": "sweeprace-tight", "cfg": _hc([1, 2, 3, 4, 5], MaxCost=4, BufCap=64, D=1), "goroutines": 6, "opsPer": 150, "clear": False,
-         "maxCostOps": False, "ttls": [1, 1, 2, 0, 30], "costs": [1], "ample": False, "sleep": True, "pattern": "sweeprace", "yield": True},
+         "maxCostOps": False, "ttls": [1, 1, 2, 0, 30], "costs": [1], "ample": False, "sleep": True, "pattern": "sweeprace", "yield": True, "phases": 15},
         {"name": "stall", "cfg": _hc(list(range(1, 13)), MaxCost=100000, BufCap=64, D=1), "goroutines": 1, "opsPer": 1, "clear": False,
          "maxCostOps": False, "ttls": [40], "costs": [1], "ample": True, "sleep": False, "pattern": "stall", "yield": False},
         {"name": "shrinkrace", "cfg": _hc([1, 2], MaxCost=10, BufCap=64), "goroutines": 3, "opsPer": 800, "clear": False,
